@@ -174,7 +174,7 @@ class BigTtlTriplesYielder(BaseTriplesYielder):
 
     def _find_next_blank(self, target_str, start_index):
         pos = target_str.find(" ", start_index)
-        return len(target_str)-1 if pos == -1 else pos
+        return len(target_str) if pos == -1 else pos
 
 
     def _find_next_unescaped_quotes(self, target_str, start_index):
